@@ -1,5 +1,6 @@
 """C17 — LaTeX output keeps its group/environment structure whatever the text says."""
 import multiprocessing as mp
+import re
 import random
 
 from harness import core, inputs, trees
@@ -76,7 +77,20 @@ def parse_worker(text):
     from mistletoe.latex_renderer import LaTeXRenderer
     try:
         with LaTeXRenderer():
-            w = trees.dump(Document(text))
+            doc0 = Document(text)
+            w = trees.dump(doc0)
+            # the delimiters of a math span are its own: one or two dollars, the same number again, no dollar between them
+            # (what is copied into the output must close the math mode it opens)
+            bad_math = []
+
+            def walk(t):
+                if type(t).__name__ == 'Math' and not re.fullmatch(r'(\${1,2})[^$]+\1', t.content, re.S):
+                    bad_math.append(t.content)
+                for c in (t.children or ()):
+                    walk(c)
+            walk(doc0)
+            if bad_math:
+                return w, None, None, 'MATH ' + repr(bad_math[:3])
 
         def mk():
             return Document(text)
@@ -156,6 +170,10 @@ def run(ctx, only=None):
     items = []
     for text, (w, outs, hit, err) in zip(texts, parsed):
         ctx.count('evaluations')
+        if err is not None and err.startswith('MATH '):
+            ctx.failing.append({'interface': 'oracle(math delimiters)', 'input': {'text': text},
+                                'what': 'a math span does not end with the dollars it begins with (math mode is left open in the output)', 'observed': err[5:], 'kf': None})
+            continue
         if err is not None:
             ctx.count('impl_exceptions')
             continue
